@@ -436,3 +436,98 @@ func c05Parked(cfg *runCfg, r *rand.Rand, cf *casesFile, m *meta, dist map[strin
 	_ = context.Background
 	return len(cases), nil
 }
+
+// ---------------------------------------------------------------- intrunc
+
+// Large inbound PUBLISH packets (remaining length above 64 KiB), complete or cut by the end of the stream
+// inside the body, and complete ones around 65,535 / 65,536 / 65,537.
+func c05Intrunc(cfg *runCfg, r *rand.Rand, cf *casesFile, m *meta, dist map[string]int) (int, error) {
+	type tc struct {
+		rl, cut int // remaining length; body bytes actually sent (= rl: complete)
+		qos     byte
+	}
+	var tcs []tc
+	for i, rl := range []int{65537, 100000, 300000} {
+		for j, cut := range []int{1, 65536, rl - 1} {
+			if cfg.tier == "quick" {
+				tcs = append(tcs, tc{rl, cut, byte((i + j) % 3)})
+			} else {
+				for q := byte(0); q < 3; q++ {
+					tcs = append(tcs, tc{rl, cut, q})
+				}
+			}
+		}
+	}
+	for _, rl := range []int{65535, 65536, 65537} {
+		for q := byte(0); q < 3; q++ {
+			tcs = append(tcs, tc{rl, rl, q})
+		}
+	}
+	tcs = append(tcs, tc{300000, 300000, 1})
+	if cfg.tier != "quick" {
+		for i := 0; i < 30; i++ {
+			rl := 65537 + r.Intn(400000)
+			tcs = append(tcs, tc{rl, 1 + r.Intn(rl-1), byte(r.Intn(3))})
+		}
+	}
+	var cases []string
+	for _, c := range tcs {
+		if c05F.tooMany("intrunc") {
+			break
+		}
+		topic := []byte("big/t")
+		overhead := 2 + len(topic)
+		if c.qos > 0 {
+			overhead += 2
+		}
+		im := inMsg{Topic: topic, QoS: c.qos, Retain: c.rl%2 == 0, Dup: c.qos == 1, Payload: c05AZ(r.Intn(26), c.rl-overhead)}
+		if c.qos > 0 {
+			im.ID = uint16(1 + r.Intn(65535))
+		}
+		pkt := encPublish(im)
+		hdr := len(pkt) - c.rl
+		sent := pkt[:hdr+c.cut]
+		if c.cut == c.rl && c.qos == 2 {
+			sent = append(append([]byte{}, pkt...), encID(0x62, im.ID)...) // complete: released by its PUBREL
+		}
+		fc := map[string]interface{}{"broker_sends": fmt.Sprintf("PUBLISH(q%d,id%d,retain=%v,dup=%v,topic=%q) with remaining length %d", im.QoS, im.ID, im.Retain, im.Dup, im.Topic, c.rl),
+			"body_bytes_sent_before_the_stream_ends": c.cut}
+		s, err := newSession(true, nil)
+		if err != nil {
+			c05F.add("intrunc", fmt.Sprintf("session could not be established: %v", err), fc)
+			continue
+		}
+		s.conn.send(sent)
+		s.conn.finish()
+		if !s.waitDone(30 * time.Second) {
+			c05F.add("intrunc", "the reader did not finish within 30 s after the peer closed", fc)
+			s.cli.Close()
+		}
+		obs := "None"
+		handed := "nothing"
+		for _, e := range s.snapshot() {
+			if e.Kind == "hand" {
+				obs = "(Some " + c05ZMsg(e.Msg) + ")"
+				handed = fmt.Sprintf("q%d,id%d,topic=%q,payload of %d bytes", e.Msg.QoS, e.Msg.ID, e.Msg.Topic, len(e.Msg.Payload))
+			}
+		}
+		class := errClass(s.cli.Err())
+		code := map[string]int{"EOF": 1, "UnexpectedEOF": 2}[class]
+		if code == 0 {
+			code = 9
+		}
+		fc["handed_to_the_handler"] = handed
+		fc["connection_error"] = class
+		cases = append(cases, cTuple(c05Z(sent), obs, fmt.Sprint(code)))
+		m.Families["trunc"] = append(m.Families["trunc"], fc)
+		if c.cut < c.rl {
+			dist["large_inbound_truncated"]++
+		} else {
+			dist["large_inbound_complete"]++
+		}
+	}
+	cf.def("trunc_cases", "list (list N * option message * N)", cList(cases))
+	cf.result("V_trunc", "c05_trunc_violations trunc_cases")
+	cf.result("M_trunc", "c05_trunc_mismatches trunc_cases")
+	return len(cases), nil
+}
